@@ -328,8 +328,20 @@ def check_stmt(case):
 # -- template sets -----------------------------------------------------------------------------------------
 
 
+def _neutral_tset(node):
+    """{% filter upper %} sections of the tsets generators become {% filter default('D', true) %}: a case transform of a
+    rendered fragment is outside the premise (&lt; -> &LT;)."""
+    if isinstance(node, dict):
+        return {k: (v if k == "broken" else _neutral_tset(v)) for k, v in node.items()}
+    if isinstance(node, list):
+        if len(node) == 3 and node[0] == "filter" and node[1] == "upper":
+            return ["filter", "default_D", _neutral_tset(node[2])]
+        return [_neutral_tset(x) for x in node]
+    return node
+
+
 def check_tset(case):
-    ir = c15.enrich_ir(case["ir"])
+    ir = _neutral_tset(c15.enrich_ir(case["ir"]))
     data = c15.enrich_data(case["data"])
     sources = tsets.print_set(ir)
     labels = {"tset:" + ir["kind"]}
